@@ -469,6 +469,16 @@ func ruleRenderSize(w *World, r *Report, pfx string) {
 				if !ok || ex.Tuple != ssa.Value(size) || ex.Index != 1 {
 					bad = "for a terminal the height handed to flush is not the terminal's height"
 				}
+			} else {
+				// not a terminal: no height to respect - the row limit must not cut bars off: a positive
+				// constant or the (positive) width stand-in the code uses
+				okH := isLoad(Val{V: stripConv(h.V)}, tPState, "reqWidth") && p.hasCmp(-1, token.GTR, loadOf(tPState, "reqWidth"), isConstInt(0))
+				if k, ok := constInt(h.V); ok && k > 1 {
+					okH = true
+				}
+				if !okH {
+					bad = "for a non-terminal output the row limit handed to flush is not a positive stand-in (bars would be clipped away from files and pipes)"
+				}
 			}
 		}
 		for _, ev := range p.Events {
@@ -483,8 +493,9 @@ func ruleRenderSize(w *World, r *Report, pfx string) {
 					bad = "for a terminal the width handed to the renderers is not the terminal's width"
 				}
 			} else {
-				okW := isLoad(Val{V: stripConv(wv.V)}, tPState, "reqWidth")
-				if k, ok := constInt(wv.V); ok && k > 0 {
+				// the requested width exactly when one was requested, the positive default otherwise
+				okW := isLoad(Val{V: stripConv(wv.V)}, tPState, "reqWidth") && p.hasCmp(-1, token.GTR, loadOf(tPState, "reqWidth"), isConstInt(0))
+				if k, ok := constInt(wv.V); ok && k > 0 && p.hasCmp(-1, token.LEQ, loadOf(tPState, "reqWidth"), isConstInt(0)) {
 					okW = true
 				}
 				if !okW {
